@@ -25,6 +25,7 @@ type Config struct {
 	MaxAlloc    int
 	MaxSymAlloc int
 	MaxPreempt  int
+	SchedFirst  bool // when the running goroutine blocks or exits, continue with the first runnable one (no scheduler choice)
 	Solver      string
 	TimeoutMS   int
 	Workers     int
